@@ -771,7 +771,6 @@ func c16Repeat(c *Ctx) {
 	c.Ev.Sample(map[string]any{"part": "repeat", "questions": n, "udp_replies": "TC, complete, TC"})
 }
 
-
 // c16Echo: the UDP reply decides by its TC flag alone. A complete reply whose question section is
 // not a verbatim copy of the query's - the server lower-cased a mixed-case name, or sent a bare
 // header without any question - is still a reply without TC: it is returned as received and the
@@ -839,7 +838,11 @@ func c16Patient(c *Ctx) {
 		var wg sync.WaitGroup
 		wg.Add(2)
 		go func() { defer wg.Done(); c16Do(e, hasty) }()
-		go func() { defer wg.Done(); time.Sleep(time.Duration(r.Range(5, 60)) * time.Millisecond); c16Do(e, &patient) }()
+		go func() {
+			defer wg.Done()
+			time.Sleep(time.Duration(r.Range(5, 60)) * time.Millisecond)
+			c16Do(e, &patient)
+		}()
 		wg.Wait()
 		c.Ev.Eval(2)
 		time.Sleep(3 * time.Millisecond)
